@@ -206,6 +206,14 @@ func TestC09(t *testing.T) {
 						run.Violation("shape:rotation-forwarded", fmt.Sprintf("a key-rotation payload must be consumed: out=%v err=%v panic=%s", res.Out != nil, res.Err, res.Panic), map[string]any{"config": cfg.String()})
 						continue
 					}
+					// rotation payloads that rotate only the salt and/or info (no wrapper), or nothing at all, are
+					// rotation payloads all the same
+					for vi, rp2 := range []*rotPayload{{salt: []byte("s3"), Note: "CANARY-rotation"}, {info: []byte("i3"), Note: "CANARY-rotation"}, {salt: []byte{}, info: []byte{}, Note: "CANARY-rotation"}, {Note: "CANARY-rotation"}} {
+						if res2 := callProcess(f, &eventlogger.Event{Type: "t", Payload: rp2}); res2.Panic != "" || res2.Out != nil || res2.Err != nil {
+							run.Violation("shape:rotation-forwarded", fmt.Sprintf("a key-rotation payload without a wrapper (variant %d: salt=%q info=%q) must be consumed: out=%v err=%v panic=%s", vi, rp2.salt, rp2.info, res2.Out != nil, res2.Err, res2.Panic), map[string]any{"config": cfg.String()})
+							break
+						}
+					}
 					// and it must have taken effect: the next sensitive value is protected under the new wrapper
 					if so == "absent" || so == "encrypt" {
 						type sp struct {
